@@ -12,7 +12,7 @@ import numpy as np
 from hypothesis import strategies as st
 
 from pyoma2.algorithms import EFDD, EFDD_MS, FDD, FDD_MS, FSDD, SSIcov, SSIcov_MS, SSIdat, SSIdat_MS, pLSCF, pLSCF_MS
-from pyoma2.algorithms.data.result import FDDResult, SSIResult
+from pyoma2.algorithms.data.result import EFDDResult, FDDResult, SSIResult
 from pyoma2.functions import gen
 from pyoma2.setup import MultiSetup_PoSER, MultiSetup_PreGER, SingleSetup
 
@@ -130,25 +130,45 @@ def _new_alg(kind, cls_key, name, with_params=True):
 
 
 _MEMO = {}
+SEEDS = (7, 8)
+
+
+def _precompute():
+    """expected results from pristine interpreters, one per (kind, class, seed); run once in the parent process"""
+    import pickle
+    import subprocess
+    import sys
+
+    if os.environ.get("VP_C15_ISO_CHILD"):
+        return
+    jobs = [(k, c, sd) for k, pool in (("single", POOL_SINGLE), ("preger", POOL_MS)) for c in sorted(pool) for sd in SEEDS]
+    env = dict(os.environ, VP_C15_ISO_CHILD="1")
+    with tempfile.TemporaryDirectory() as d:
+        running = []
+        pending = list(jobs)
+        done = []
+        while pending or running:
+            while pending and len(running) < 16:
+                k, c, sd = pending.pop()
+                out = os.path.join(d, f"{k}-{c}-{sd}.pkl")
+                pr = subprocess.Popen([sys.executable, "-m", "vp.checks.c15_iso", k, c, str(sd), out], env=env, stdout=subprocess.PIPE, stderr=subprocess.STDOUT)
+                running.append((pr, (k, c, sd), out))
+            pr, key, out = running.pop(0)
+            log = pr.communicate()[0]
+            if pr.returncode != 0:
+                raise RuntimeError(f"isolated reference run {key} failed:\n{log.decode()[-2000:]}")
+            done.append((key, out))
+            with open(out, "rb") as f:
+                res = pickle.load(f)
+            for stage in ("run", "mpe"):
+                _MEMO[(key[0], key[1], stage, key[2])] = res[stage]
 
 
 def expected(kind, cls_key, stage, seed=7):
-    """result snapshot of a fresh instance run alone (stage 'run') and then mpe'd (stage 'mpe')"""
-    key = (kind, cls_key, stage, seed)
-    if key not in _MEMO:
-        s = _new_setup(kind, seed)
-        a = _new_alg(kind, cls_key, "fresh")
-        s.add_algorithms(a)
-        s.run_by_name("fresh")
-        if stage == "mpe":
-            mk = (POOL_SINGLE if kind == "single" else POOL_MS)[cls_key][2]
-            try:
-                s.mpe("fresh", sel_freq=list(SEL), **mk)
-            except Exception as e:  # noqa: BLE001 - the isolated run's own outcome is the expectation
-                _MEMO[key] = ("raises", type(e).__name__)
-                return _MEMO[key]
-        _MEMO[key] = ("ok", snapshot(a.result))
-    return _MEMO[key]
+    """result snapshot of a fresh instance run alone in a pristine interpreter (stage 'run') and then mpe'd (stage 'mpe')"""
+    if not _MEMO:
+        _precompute()
+    return _MEMO[(kind, cls_key, stage, seed)]
 
 
 def _data_fingerprint(setup, kind):
@@ -164,23 +184,25 @@ def judge_history(case):
     j = J()
     kind = case["kind"]
     seed = case.get("seed", 7)
-    algs_spec = case["algs"]  # name -> [cls_key, with_params]
-    setup = _new_setup(kind, seed)
-    fp0 = _data_fingerprint(setup, kind)
-    objs = {n: _new_alg(kind, ck, n, wp) for n, (ck, wp) in algs_spec.items()}
+    algs_spec = {n: (list(v) + [0])[:3] for n, v in case["algs"].items()}  # name -> [cls_key, with_params, setup index]
+    nset = 1 + max(v[2] for v in algs_spec.values())
+    seeds = [seed] + [s_ for s_ in SEEDS if s_ != seed]
+    setups = [_new_setup(kind, seeds[i]) for i in range(nset)]
+    fps = [_data_fingerprint(s_, kind) for s_ in setups]
+    objs = {n: _new_alg(kind, ck, n, wp) for n, (ck, wp, _) in algs_spec.items()}
     model = {n: {"added": False, "ran": False, "mpe": False} for n in objs}
     ran_classes = set()
     j.tag(kind)
 
     def check_all(step, what):
-        j.check(_data_fingerprint(setup, kind) == fp0, "data-mutated", lambda: f"after step {step} ({what}): the setup's data array changed")
+        j.check(all(_data_fingerprint(s_, kind) == f_ for s_, f_ in zip(setups, fps)), "data-mutated", lambda: f"after step {step} ({what}): a setup's data array changed")
         for n, a in objs.items():
             m = model[n]
             ck = algs_spec[n][0]
             if not m["ran"]:
                 j.check(a.result is None, "result-without-run", lambda: f"after step {step} ({what}): algorithm {n} has a result although it never ran successfully")
                 continue
-            tag, exp = expected(kind, ck, "mpe" if m["mpe"] else "run", seed)
+            tag, exp = expected(kind, ck, "mpe" if m["mpe"] else "run", seeds[algs_spec[n][2]])
             if tag != "ok":
                 continue
             got = snapshot(a.result)
@@ -191,14 +213,19 @@ def judge_history(case):
         kindop = op[0]
         if kindop == "add":
             names = op[1]
-            r = sut(setup.add_algorithms, *[objs[n] for n in names])
-            if not j.check(not raised(r), "add-raises", lambda: f"{r!r}"):
-                return j
+            for si in range(nset):
+                mine = [n for n in names if algs_spec[n][2] == si]
+                if not mine:
+                    continue
+                r = sut(setups[si].add_algorithms, *[objs[n] for n in mine])
+                if not j.check(not raised(r), "add-raises", lambda: f"{r!r}"):
+                    return j
             for n in names:
                 model[n]["added"] = True
             check_all(step, f"add {names}")
         elif kindop == "run":
             n = op[1]
+            setup = setups[algs_spec[n][2]] if n in objs else setups[0]
             r = sut(setup.run_by_name, n)
             if n not in objs or not model[n]["added"]:
                 j.check(raised(r) and r.type == "KeyError", "unknown-name", lambda: f"run_by_name({n!r}) on a setup without that algorithm: {r!r} (KeyError expected)")
@@ -211,6 +238,7 @@ def judge_history(case):
                     ran_classes.add(algs_spec[n][0])
             check_all(step, f"run {n}")
         elif kindop == "run_all":
+            setup = setups[(op[1] if len(op) > 1 else 0) % nset]
             r = sut(setup.run_all)
             added = [n for n in getattr(setup, "algorithms", {})]
             if any(not algs_spec[n][1] for n in added):
@@ -235,13 +263,14 @@ def judge_history(case):
                 mk = (POOL_SINGLE if kind == "single" else POOL_MS)[algs_spec[n][0]][2]
             else:
                 mk = {}
+            setup = setups[algs_spec[n][2]] if n in objs else setups[0]
             r = sut(setup.mpe, n, sel_freq=list(SEL), **mk)
             if n not in objs or not model[n]["added"]:
                 j.check(raised(r) and r.type == "KeyError", "unknown-name", lambda: f"mpe({n!r}) on a setup without that algorithm: {r!r} (KeyError expected)")
             elif not model[n]["ran"]:
                 j.check(raised(r), "mpe-before-run", lambda: f"mpe({n!r}) before run did not raise")
             else:
-                tag, _ = expected(kind, algs_spec[n][0], "mpe", seed)
+                tag, _ = expected(kind, algs_spec[n][0], "mpe", seeds[algs_spec[n][2]])
                 if tag == "ok":
                     if j.check(not raised(r), "mpe-raises", lambda: f"mpe({n!r}) raised {r!r} although an isolated run+mpe succeeds"):
                         model[n]["mpe"] = True
@@ -272,7 +301,7 @@ def machine_case(draw, kind):
     names = ["A", "B", "C"][:k]
     algs = {}
     for n in names:
-        algs[n] = [draw(st.sampled_from(pool)), draw(st.integers(0, 7)) != 0]
+        algs[n] = [draw(st.sampled_from(pool)), draw(st.integers(0, 7)) != 0, draw(st.integers(0, 1))]
     ops = []
     if draw(st.integers(0, 4)) != 0:  # most histories start by adding everything (construction: makes multi-algorithm runs likely)
         ops.append(["add", list(names)])
@@ -287,7 +316,7 @@ def machine_case(draw, kind):
         elif o == "unknown":
             ops.append([draw(st.sampled_from(["run", "mpe"])), "nobody"])
         else:
-            ops.append(["run_all"])
+            ops.append(["run_all", draw(st.integers(0, 1))])
     return {"kind": kind, "algs": algs, "ops": ops, "seed": draw(st.sampled_from([7, 8]))}
 
 
@@ -295,6 +324,8 @@ def machine_case(draw, kind):
 # pickle round trip
 # ---------------------------------------------------------------------------
 def judge_pickle(case):
+    case = dict(case)
+    case["algs"] = {n: [v[0], v[1]] for n, v in case["algs"].items()}  # one setup for the round trip
     j = judge_history(case)
     kind = case["kind"]
     # rebuild the same history (the first pass judged it) and round-trip the final state
@@ -335,7 +366,8 @@ def judge_pickle(case):
 # ---------------------------------------------------------------------------
 # PoSER constructor validation
 # ---------------------------------------------------------------------------
-TYPELISTS = [[], ["A"], ["B"], ["A", "B"], ["B", "A"], ["A", "A"]]
+# A = FDD, B = SSIcov, E = EFDD (a subclass of FDD: "identical types" must not be relaxed to isinstance)
+TYPELISTS = [[], ["A"], ["B"], ["E"], ["A", "B"], ["B", "A"], ["A", "A"], ["A", "E"], ["E", "A"]]
 STATES = ["new", "run", "mpe"]
 
 
@@ -347,7 +379,7 @@ def _setup_configs():
     return cfgs
 
 
-CONFIGS = _setup_configs()  # 34
+CONFIGS = _setup_configs()  # 55
 _BUILT = {}
 
 
@@ -357,10 +389,11 @@ def _build_setup(ci):
         s = SingleSetup(np.zeros((8, 3)), fs=10.0)
         algs = []
         for k, (t, stt) in enumerate(zip(tl, sts)):
-            if t == "A":
-                a = FDD(name=f"fdd{k}", nxseg=64)
+            if t in ("A", "E"):
+                a = (FDD if t == "A" else EFDD)(name=f"fdd{k}", nxseg=64)
                 if stt != "new":
-                    a._set_result(FDDResult(freq=np.arange(3.0), Fn=np.array([1.0]) if stt == "mpe" else None, Phi=np.ones((3, 1)) if stt == "mpe" else None))
+                    rc = FDDResult if t == "A" else EFDDResult
+                    a._set_result(rc(freq=np.arange(3.0), Fn=np.array([1.0]) if stt == "mpe" else None, Phi=np.ones((3, 1)) if stt == "mpe" else None))
             else:
                 a = SSIcov(name=f"ssi{k}", br=4)
                 if stt != "new":
@@ -461,7 +494,12 @@ SUBS = [
     Sub("pickle_roundtrip", judge_pickle, machine_case("single"), quick=150, thorough=2500,
         rule="gen.save_to_file / load_from_file after a generated history: algorithm names, types, run parameters and every result field equal"),
     Sub("poser_validation", judge_poser, enum=enum_poser, shards_quick=16, shards_thorough=16,
-        rule="MultiSetup_PoSER constructor for every assignment of type lists, run/mpe states and 0..3 names to 0..3 setups (161 980 configurations): accepted iff >= 2 setups, non-empty identical type lists, one name per algorithm, all extracted; ValueError otherwise"),
+        rule="MultiSetup_PoSER constructor for every assignment of type lists, run/mpe states and 0..3 names to 0..3 setups over the types FDD, SSIcov, EFDD (subclass of FDD): 677 824 configurations: accepted iff >= 2 setups, non-empty identical type lists, one name per algorithm, all extracted; ValueError otherwise"),
     Sub("poser_4setups", judge_poser4, poser4_case(), quick=300, thorough=10000,
         rule="same oracle, four setups, sampled"),
 ]
+
+
+# expected results are computed once, in the parent process, before the workers are forked
+if not os.environ.get("VP_C15_ISO_CHILD"):
+    _precompute()
